@@ -3,6 +3,7 @@ Growth of the specification beyond C01-C20 (DESIGN.md section 7); not in MANIFES
 import collections
 import concurrent.futures as cf
 import json
+import os
 
 from drivers import x07_lexer, x07_typed
 from vlib.core import Machinery
@@ -88,6 +89,8 @@ def lex_batch(ctx, name, behs, nsrc, stats, drift):
         sel = {"rfc": [tr for tr in traces if NL in tr["s"] and (DQ in tr["s"] or BS in tr["s"])],
                "cr": [tr for tr in traces if CR in tr["s"]], "line": [tr for tr in traces if NL in tr["s"]]}
         for key, part in sel.items():
+            if not part:
+                continue
             bad = ctx.validate("Trace_Lexer", "Trace_Lexer_%s.cfg" % key, part)
             stats["drift_%s_judged" % key] += len(part)
             stats["drift_%s" % key] += len(bad)
@@ -105,6 +108,8 @@ def part_lexer(ctx, quick, stats):
         return
     plan = [(n, "AllPolicies", 4 if n <= 2 else 1) for n in range(0, 4 if quick else 5)]
     plan.append((4, "CorePolicies", 1) if quick else (5, "TwoPolicies", 1))
+    if os.environ.get("X07_MAXN"):   # development / mutation harness convenience: a smaller universe
+        plan = [p for p in plan if p[0] <= int(os.environ["X07_MAXN"])]
     for n, pols, nsrc in plan:
         behs = ctx.generate("Gen_Lexer", ctx.cfg("gl%d.cfg" % n, GEN.format(mode="all", n=n, pols=pols, steps=0)), deadlock=False)
         stats["lex_inputs_len%d" % n] = len({tuple(b["s"]) for b in behs})
@@ -151,9 +156,9 @@ def run(ctx):
                         "exhaustive only inside the declared universes; beyond them seeded walks",
                         "free choices (dialect knobs, error subclass, line look-ahead) are not judged, only counted as drift"]
     stats = collections.Counter()
-    part = ctx.replay_case["case"]["part"] if ctx.replay_case else None
+    part = ctx.replay_case["case"]["part"] if ctx.replay_case else (os.environ.get("X07_PART") or None)
     models = []
-    if not ctx.replay_case:
+    if not ctx.replay_case and not os.environ.get("X07_MAXN"):
         tier = "quick" if quick else "thorough"
         runs = [("MC_Lexer", "MC_Lexer_%s.cfg" % tier, 1 if quick else 8), ("MC_LexerLaws", "MC_LexerLaws_%s.cfg" % tier, 1 if quick else 4),
                 ("MC_LexerLaws", "MC_LexerLaws_%s2.cfg" % tier, 1)]
